@@ -92,11 +92,30 @@ PROPS["C03"] = _hist(
     "and __exit__ must not raise.",
     "Sampled histories; only operations the documentation calls reversible are executed inside blocks.", "4 (C03)",
     probes=["context_enter", "nested_context", "context_exit_checked", "exit_replays_10+_undo_entries"])
+PROPS["C04"] = _hist(
+    "C04", 4000, 120000,
+    "optimize()/slim_optimize() are observation operations inside edit histories (warm-started solver, both interfaces, copies, "
+    "contexts): status, optimum, fluxes, duals and the status->return/exception mapping are judged against an exact rational LP "
+    "(checked certificates) built from the reference model; every Solution ever returned is re-compared with its frozen copy after "
+    "every later step.",
+    "In-family part only (history dependence, snapshot immutability, verdict handling); the input dimension is sampled by small "
+    "generated networks and the states edit histories reach. Trusted base: sim/reflp.py + fractions.", "4 (C04)",
+    probes=["fba_truth_optimal", "fba_truth_infeasible", "fba_truth_unbounded", "fba_optimum_checked", "duals_checked",
+            "slim_optimum_checked", "slim_error_value_checked", "solution_kept"])
 PROPS["C07"] = _hist(
     "C07", 4000, 120000,
     "Knock-out heavy histories (Gene.knock_out, knock_out_model_genes by object/id/index, Reaction.knock_out, functional flags, "
     "rule edits, contexts) judged against truth tables over the generator's own rule trees (never cobrapy's parser).",
     "Sampled histories; rules are random and/or trees of depth <= 3 over <= 6 shared genes.", "4 (C07)")
+PROPS["C11"] = _hist(
+    "C11", 2500, 60000,
+    "'Restart through a durable format' is an operation inside edit histories: save as JSON/YAML/dict/pickle (string, path or "
+    "handle; sort on/off) under one global Configuration, discard the live model, load under another Configuration, compare with "
+    "the projection of the reference, require a second round trip to be a fixpoint, and continue the history on the loaded model.",
+    "Sampled histories and configuration skews; groups, user LP objects and gene functional flags are not promised by the dict "
+    "formats and are resynchronised; a metabolite without compartment is compared as compartment ''.", "4 (C11)",
+    probes=["restart_pickle", "restart_dict", "restart_json", "restart_yaml", "restart_variant_string", "restart_variant_path",
+            "restart_variant_handle", "restart_config_skew", "restart_fixpoint_checked"])
 PROPS["C12"] = _hist(
     "C12", 3000, 90000,
     "Several live models (original, copy, deepcopy, unpickled) with interleaved histories: equality incl. raw LP at creation, "
